@@ -69,7 +69,7 @@ type mgroup struct {
 
 type caseStats struct {
 	ticks, alters, flips, expiredSeen, keptSeen, removedGroups int
-	lengthenKept, shortenExpired, infSeen, partial           int
+	lengthenKept, shortenExpired, infSeen, partial             int
 	probes                                                     int
 }
 
